@@ -20,7 +20,7 @@ def oracle(kind, a, b):
 
 def build_cases(rnd, thorough):
     cases = []
-    n = 12000 if thorough else 2500
+    n = 60000 if thorough else 2500
     for fam in ('uri', 'iri'):
         g = Gen(random.Random(rnd.random()), fam)
         for p, q in cmpgen.ref_pairs(g, n):
@@ -32,7 +32,7 @@ def build_cases(rnd, thorough):
             if g.r.random() < 0.15:
                 cases.append((kind, a, a))
         # the same two texts under every view they are valid for (C08: the order must not depend on the view)
-        for p, q in cmpgen.two_component_pairs(g, 600 if thorough else 160):
+        for p, q in cmpgen.two_component_pairs(g, 3000 if thorough else 160):
             a, b = Gen.compose(p).encode(), Gen.compose(q).encode()
             cases.append((fam + 'ref', a, b)); cases.append((fam, a, b))
         for comp, vocab in cmpgen.COMPONENT_VOCAB.items():
